@@ -530,6 +530,40 @@ pub fn enumerate(thorough: bool) -> Vec<WSpec> {
             }
         }
     }
+    // (c) thorough: all pairs of state values for every pair of state types, and all pairs of
+    //     first-frame values for every pair of input widths
+    if thorough {
+        for a in STYS {
+            for b in STYS {
+                let (aa, ab) = (state_alphabet(a), state_alphabet(b));
+                for (i, x) in aa.iter().enumerate() {
+                    for (j, y) in ab.iter().enumerate() {
+                        out.push(WSpec {
+                            failed: failed_sets[(i + j) % failed_sets.len()].clone(),
+                            states: vec![(names((i + j) % 3, "p", 0), x.clone()), (names((i + 2 * j) % 3, "q", 1), y.clone())],
+                            inputs: vec![],
+                            frames: vec![vec![]],
+                        });
+                    }
+                }
+            }
+        }
+        for a in IWS {
+            for b in IWS {
+                let (aa, ab) = (bv_alphabet(a), bv_alphabet(b));
+                for (i, x) in aa.iter().enumerate() {
+                    for (j, y) in ab.iter().enumerate() {
+                        out.push(WSpec {
+                            failed: vec![0],
+                            states: vec![],
+                            inputs: vec![(names(i % 3, "u", 0), a), (names(j % 3, "v", 1), b)],
+                            frames: vec![vec![x.clone(), y.clone()], vec![y.clone().extract(a.min(b) - 1, 0).zext(a - a.min(b)), x.clone().extract(a.min(b) - 1, 0).zext(b - a.min(b))]],
+                        });
+                    }
+                }
+            }
+        }
+    }
     out
 }
 
@@ -659,12 +693,13 @@ pub fn run(opts: &Opts, rep: &Report) {
         // streams over a wider base: every 97th enumerated witness
         let wide: Vec<&WSpec> = specs.iter().step_by(97).filter(|s| check_one(s).is_ok()).take(40).collect();
         let off = specs.len() as u64;
-        let pairs: Vec<(usize, usize)> = (0..wide.len()).flat_map(|a| (0..wide.len()).map(move |b| (a, b))).collect();
+        let nw = wide.len();
+        let pairs: Vec<(usize, usize, usize)> = (0..nw).flat_map(|a| (0..nw).flat_map(move |b| (0..nw).map(move |c| (a, b, c)))).collect();
         let fails: Vec<(u64, (String, String), Value)> = pairs
             .par_iter()
             .enumerate()
-            .filter_map(|(i, (a, b))| {
-                let v = vec![wide[*a].clone(), wide[*b].clone(), wide[(*a + *b) % wide.len()].clone()];
+            .filter_map(|(i, (a, b, c))| {
+                let v = vec![wide[*a].clone(), wide[*b].clone(), wide[*c].clone()];
                 check_concat(&v).err().map(|e| (off + 1000 + i as u64, e, json!({"stream": v.iter().map(|s| s.to_json()).collect::<Vec<_>>()})))
             })
             .collect();
